@@ -27,6 +27,9 @@ type c02Case struct {
 	Trap bool `json:"trap,omitempty"`
 	// Move: the receiver is an object that first held Move.From, was used, and was driven to A's value (A is ignored).
 	Move *mon.ElemMove `json:"move,omitempty"`
+	// Observe: before the judged operation every operand is read through Encode / EncodeUncompressed / Equal /
+	// IsIdentity (observers must not change what the operation then computes).
+	Observe bool `json:"observe_first,omitempty"`
 	// Steer names the formula intermediate that this case's representation puts on a structured stored value.
 	Steer string `json:"steer,omitempty"`
 }
@@ -51,7 +54,7 @@ func init() {
 				"rel:O": 50, "rel:P": 50, "rel:-P": 50, "rel:phiP": 50, "rel:phi2P": 50, "rel:-phiP": 20, "rel:2P": 50, "rel:unrelated": 50,
 				"alias:same": 50, "alias:copy": 50, "op:add-nil": 5, "op:sub-nil": 5, "op:double": 100, "op:negate": 100, "op:assoc": 50,
 				"O+O": 20, "idrepr:id-y": 50, "steer:Y2": 50, "steer:Z2": 50, "steer:YZ": 20, "steer:XY": 20, "steer:X1X2": 50, "steer:Y1Y2": 50, "steer:Z1Z2": 50, "steer:X+Y": 50,
-				"trap-cases": 300, "trap-liveness": 1, "history-cases": 100,
+				"trap-cases": 300, "trap-liveness": 1, "history-cases": 100, "observed-first": 300,
 			}
 		},
 	})
@@ -134,6 +137,18 @@ func c02Generate(c *mon.Ctx) {
 				c.Structured(func() any { return &c02Case{Op: op, A: a, B: &b, Alias: "distinct", Rel: "O"} })
 			}
 		}
+
+		// an identity that has been serialised, then used on either side of an operation with a finite point
+		for i := 0; i < 4; i++ {
+			pv := pool.NonInf[(i*9+len(r1.L.Bits()))%len(pool.NonInf)]
+			pe := mon.MkElemCase(pv, gen.DrawRepr(sr, false))
+
+			for _, op := range []string{"add", "sub"} {
+				op := op
+				c.Structured(func() any { return &c02Case{Op: op, A: a, B: &pe, Alias: "distinct", Rel: "unrelated", Observe: true} })
+				c.Structured(func() any { return &c02Case{Op: op, A: pe, B: &a, Alias: "distinct", Rel: "O", Observe: true} })
+			}
+		}
 	}
 
 	// 3. steered intermediates
@@ -186,7 +201,10 @@ func c02Generate(c *mon.Ctx) {
 			q := gen.Fresh(hr)
 			b := mon.MkElemCase(q, gen.DrawRepr(hr, false))
 			op := []string{"add", "sub", "double", "negate"}[rep%4]
-			c.Structured(func() any { return &c02Case{Op: op, B: &b, Alias: "distinct", Rel: "unrelated", Move: &mv} })
+			obs := rep%2 == 0
+			c.Structured(func() any { return &c02Case{Op: op, B: &b, Alias: "distinct", Rel: "unrelated", Move: &mv, Observe: obs} })
+			// the moved object as the ARGUMENT of an operation on another receiver
+			c.Structured(func() any { return &c02Case{Op: "arg-" + op, B: &b, Alias: "distinct", Rel: "unrelated", Move: &mv, Observe: obs} })
 		}
 	}
 
@@ -248,7 +266,7 @@ func c02Generate(c *mon.Ctx) {
 
 			op := []string{"add", "sub"}[r.Intn(2)]
 
-			return &c02Case{Op: op, A: a, B: &b, Alias: "distinct", Rel: q.Tag, Trap: r.Intn(4) == 0}
+			return &c02Case{Op: op, A: a, B: &b, Alias: "distinct", Rel: q.Tag, Trap: r.Intn(4) == 0, Observe: r.Intn(4) == 0}
 		}
 	})
 }
@@ -319,6 +337,18 @@ func c02Run(c *mon.Ctx, csAny any) {
 
 	if cs.Steer != "" {
 		c.Count("steer:" + cs.Steer)
+	}
+
+	if len(cs.Op) > 4 && cs.Op[:4] == "arg-" {
+		// the (moved) object is the argument; the receiver is B
+		c02RunAsArgument(c, cs, a, pa)
+		return
+	}
+
+	if cs.Observe {
+		c.Count("observed-first")
+		_, _, _ = a.Encode(), a.EncodeUncompressed(), a.IsIdentity()
+		_ = a.Equal(a)
 	}
 
 	c.Count("op:" + cs.Op)
@@ -403,6 +433,11 @@ func c02Run(c *mon.Ctx, csAny any) {
 			b, pb = cs.B.Build(), cs.B.P.Pt()
 			if !cs.B.P.Inf || cs.B.R.Kind == "id-y" {
 				nontrivial = true
+			}
+
+			if cs.Observe {
+				_, _, _ = b.Encode(), b.EncodeUncompressed(), b.IsIdentity()
+				_, _ = b.Equal(a), a.Equal(b)
 			}
 
 			if cs.Trap {
@@ -527,3 +562,38 @@ func reprKind(e *mon.ElemCase) string {
 }
 
 var _ = big.NewInt
+
+// c02RunAsArgument uses the moved object a (value pa) as the argument of Add/Subtract on the receiver built from B.
+func c02RunAsArgument(c *mon.Ctx, cs *c02Case, a *secp256k1.Element, pa oracle.Pt) {
+	recv, pr := cs.B.Build(), cs.B.P.Pt()
+
+	if cs.Observe {
+		c.Count("observed-first")
+		_, _, _ = a.Encode(), a.EncodeUncompressed(), a.IsIdentity()
+	}
+
+	var want oracle.Pt
+
+	c.Eval(1)
+
+	switch cs.Op {
+	case "arg-sub":
+		recv.Subtract(a)
+		want = oracle.Sub(pr, pa)
+	default:
+		recv.Add(a)
+		want = oracle.Add(pr, pa)
+	}
+
+	if ok, why := mon.RawValid(recv); !ok {
+		c.Fail(fmt.Sprintf("%s with an argument that reached its value via %s: result invalid: %s", cs.Op, cs.Move.Via, why), "add-invalid", nil)
+		return
+	}
+
+	if ok, why := mon.ElemIs(recv, want); !ok {
+		c.Fail(fmt.Sprintf("%s with an argument that reached its value via %s: %s", cs.Op, cs.Move.Via, why), "arg-history-value", nil)
+		return
+	}
+
+	c.Seen(cs.Op, cs.B, cs.Move, cs.Observe)
+}
